@@ -130,7 +130,13 @@ Definition kind_items (kd : kind) (e : list item) : list item :=
 Definition keys_of (its : list item) : list key :=
   flat_map (fun it => match item_key it with Some k => [k] | None => [] end) its.
 
-Definition entry_shape_ok (ts : N) (e : list item) (before_begin before_finish : list label) : bool :=
+Definition counter_reports (k : key) (e : list item) : list N :=
+  flat_map (fun it => match it with
+                      | IMetric name [OU v] _ dims => if key_eqb k (name, dims) then [v] else []
+                      | _ => []
+                      end) e.
+
+Definition entry_shape_ok (ez : bool) (ts : N) (e : list item) (before_begin before_finish : list label) : bool :=
   match e with
   | ITimestamp t :: IConfigSplit :: metrics =>
       (t =? ts) &&
@@ -144,6 +150,10 @@ Definition entry_shape_ok (ts : N) (e : list item) (before_begin before_finish :
                          | IMetric name _ u _ => u =? described name before_finish
                          | _ => true
                          end) metrics &&
+      (* with emit_zero_counters every counter registered before the readout began is written, zero or not;
+         without it a zero is never written *)
+      (if ez then forallb (fun k => negb (match counter_reports k metrics with [] => true | _ => false end)) (registered KCounter before_begin)
+       else forallb (fun it => match it with IMetric _ [OU v] _ _ => negb (v =? 0) | _ => true end) metrics) &&
       (* every gauge / histogram registered before the readout began is written *)
       forallb (fun k => negb (match gauge_reports k metrics with [] => true | _ => false end)) (registered KGauge before_begin) &&
       forallb (fun k => negb (match hist_reports k metrics with [] => true | _ => false end)) (registered KHist before_begin)
@@ -217,7 +227,7 @@ Definition hist_values_ok (k : key) (ls : list label) (es : list (list item)) (r
   end.
 
 (* the whole run: [quiescent] says the run ends with a complete readout after the last update *)
-Definition run_ok (ls : list label) (es : list (list item)) : bool :=
+Definition run_ok (ez : bool) (ls : list label) (es : list (list item)) : bool :=
   let bs := begins ls in
   let fs := finishes ls in
   let tss := finish_ts ls in
@@ -231,7 +241,7 @@ Definition run_ok (ls : list label) (es : list (list item)) : bool :=
      match es, tss, bs, fs with
      | [], _, _, _ => true
      | e :: es', t :: tss', b :: bs', f :: fs' =>
-         entry_shape_ok t e b f && gauges_ok e b f gkeys && shapes es' tss' bs' fs'
+         entry_shape_ok ez t e b f && gauges_ok e b f gkeys && shapes es' tss' bs' fs'
      | _, _, _, _ => false
      end) es tss bs fs &&
   forallb (fun k => hist_values_ok k ls es (sum_entries (hist_count k) es =? recorded_count k ls)) hkeys.
